@@ -42,6 +42,13 @@ def regenerate(topics=None, verbose=False):
                 except Exception as e:
                     info["errors"]["shape_" + n] = repr(e)
             extra = "\n".join(lines) + "\n"
+        if topic == "Length":
+            from fractions import Fraction
+            from .emit import lean_const
+            extra = ("/-- legendregauss.Tvalues: the exact values of the doubles Python holds -/\n"
+                     "def gl_Tvalues : List K := [" + ", ".join(lean_const(Fraction(v)) for v in specs.lgm.Tvalues) + "]\n\n"
+                     "/-- legendregauss.Cvalues -/\n"
+                     "def gl_Cvalues : List K := [" + ", ".join(lean_const(Fraction(v)) for v in specs.lgm.Cvalues) + "]\n")
         text = emit_file(topic, defs, extra)
         path = os.path.join(GEN_DIR, topic + ".lean")
         old = open(path).read() if os.path.exists(path) else None
